@@ -87,7 +87,21 @@ func ZZ_C20_Variables(sv *zzsv.T) {
 		sv.Assume(err0 == nil)
 		e.SetVariable("v", val.obj())
 	}
-	out, err := e.Execute(nil)
+	// the object may have a field of the same name: the variable is what the
+	// script reads, also after other fields have been looked up
+	var obj interface{}
+	switch sv.Choice("object", 3) {
+	case 1:
+		obj = map[string]interface{}{"v": "field-v", "other": 1}
+	case 2:
+		obj = map[string]interface{}{"v": "field-v", "other": 1}
+		e2 := New("probe = other; seen = v; w = 5; return v;")
+		sv.Assume(order == 0)
+		e2.SetVariable("v", val.obj())
+		sv.Assume(e2.Prepare() == nil)
+		e = e2
+	}
+	out, err := e.Execute(obj)
 	zzDescribe(sv, "result", out, err)
 	sv.Assert("C20.var.noerror", err == nil)
 	if err != nil {
